@@ -7,7 +7,7 @@ From DV Require Import Run_C09 C09P.
 (* the statement at full strength, against the model: at every point at which the tables are read
    back with no recomputation pending, count + daily hash are the from-scratch recount (CDaily) and
    the whole log, history hash included, is the canonical function of the content (CCanon).
-   The faithful model still REFUTES it for the history hash, empty rows and an entity change
+   The faithful model still REFUTES it for the history hash and empty rows (CCanon)
    (the C09_refuted theorems); what holds outside the open classes is below. *)
 (* (1) every history — any number of writer batches, recomputations anywhere, inside batches too —
    in which each write marks every key whose content it changes (known_C09 = []: decided by the
@@ -62,15 +62,15 @@ Theorem C09_recount_injective : forall s1 s2 k1 k2, recount s1 k1 = recount s2 k
 Proof. exact recount_inj. Qed.
 Print Assumptions C09_recount_injective.
 
-(* (5) the three write kinds repaired in /repo (4510e5f, f14488a, 9c2e3ca) now cover, for every state:
+(* (5) the write kinds repaired in /repo (4510e5f, f14488a, 9c2e3ca, 9b19d99, de0967d) now cover, for every state:
    a peer's tombstones unconditionally; *)
 Theorem C09_tombstone_holds : forall s ts,
   let r := exec_op (SDelNodes ts) s in uncovered s (fst r) (snd r) = [].
 Proof. exact tombstone_covers. Qed.
 Print Assumptions C09_tombstone_holds.
-(* synchronised nodes whenever no offered version changes the entity of the stored row of its id
-   (the complement is the open class 6 below); *)
-Theorem C09_sync_update_holds : forall s room ns, pall (ingest1 room) same_entity s ns ->
+(* synchronised nodes unconditionally (the day a version leaves is marked under the entity it is
+   stored with: 4510e5f, 9b19d99); *)
+Theorem C09_sync_update_holds : forall s room ns,
   let r := exec_op (SNodes room ns) s in uncovered s (fst r) (snd r) = [].
 Proof. exact sync_update_covers. Qed.
 Print Assumptions C09_sync_update_holds.
@@ -81,7 +81,7 @@ Theorem C09_ref_deletion_holds : forall s src ent dest sig esig,
   let r := exec_op (LDelRef src ent dest sig esig) s in uncovered s (fst r) (snd r) = [].
 Proof. exact ref_deletion_covers. Qed.
 Print Assumptions C09_ref_deletion_holds.
-(* the former refutation witnesses (directed cases d0, d1, d2 of the harness) pass, nothing known *)
+(* the former refutation witnesses (directed cases d0, d1, d2, d7, d8 of the harness) pass, nothing known *)
 Theorem C09_witness_sync_update_holds : spec_C09 w_sync_update (run_C09 w_sync_update) = true /\ known_C09 w_sync_update = [].
 Proof. exact holds_sync_update. Qed.
 Print Assumptions C09_witness_sync_update_holds.
@@ -92,12 +92,34 @@ Theorem C09_witness_tombstone_holds : spec_C09 w_tombstone (run_C09 w_tombstone)
 Proof. exact holds_tombstone. Qed.
 Print Assumptions C09_witness_tombstone_holds.
 
-(* (6) refutations that remain: closed histories on which the faithful model violates the statement;
-   each is also a directed case of the harness and fails the same way on the real code.
-   A synchronised version that arrives under another entity than the stored row of its id: *)
-Theorem C09_refuted_entity_change : spec_C09 w_entity_change (run_C09 w_entity_change) = false /\ known_C09 w_entity_change = [6].
-Proof. exact refuted_entity_change. Qed.
-Print Assumptions C09_refuted_entity_change.
+Theorem C09_witness_entity_change_holds : spec_C09 w_entity_change (run_C09 w_entity_change) = true /\ known_C09 w_entity_change = [].
+Proof. exact holds_entity_change. Qed.
+Print Assumptions C09_witness_entity_change_holds.
+
+Theorem C09_witness_edge_tombstone_holds : spec_C09 w_edge_tombstone (run_C09 w_edge_tombstone) = true /\ known_C09 w_edge_tombstone = [].
+Proof. exact holds_edge_tombstone. Qed.
+Print Assumptions C09_witness_edge_tombstone_holds.
+(* a peer's edge tombstones unconditionally (de0967d); *)
+Theorem C09_edge_tombstone_holds : forall s ts,
+  let r := exec_op (SDelEdges ts) s in uncovered s (fst r) (snd r) = [].
+Proof. exact edge_tombstone_covers. Qed.
+Print Assumptions C09_edge_tombstone_holds.
+(* EVERY write kind, any state, inside the envelope (a local deletion names one stored row: ids are
+   unique; no edge tombstone is already dated at the instant of a local reference deletion) *)
+Theorem C09_all_writes_cover : forall o s, envelope o s ->
+  let r := exec_op o s in uncovered s (fst r) (snd r) = [].
+Proof. exact all_writes_cover. Qed.
+Print Assumptions C09_all_writes_cover.
+(* hence, with no class hypothesis: for every history inside the envelope — any batching, recomputes
+   anywhere — count and daily hash are the from-scratch recount wherever nothing is pending *)
+Theorem C09_daily_holds : forall t0 items, items_env (init t0) items ->
+  no_pending (CDaily t0 items) = true -> spec_C09 (CDaily t0 items) (run_C09 (CDaily t0 items)) = true.
+Proof. exact daily_holds_env. Qed.
+Print Assumptions C09_daily_holds.
+
+(* (6) refutations that remain (the history-hash half of the statement, classes 4 and 5): closed
+   histories on which the faithful model violates the statement; each is also a directed case of
+   the harness and fails the same way on the real code. *)
 (* same stored rows: one pass gives the canonical log, day by day does not; a change on an earlier
    day leaves the later history hashes untouched *)
 Theorem C09_refuted_history :
